@@ -64,6 +64,17 @@ elab "nf% " e:term : term => do
   let e ← instantiateMVars e
   withTransparency .all <| reduce e (skipProofs := true) (skipTypes := true)
 
+open Lean Elab Tactic Meta in
+/-- closes `a = b` with `Eq.refl a` **checked by the kernel only** (the elaborator's own unifier is not
+asked first: on the interpreter's terms it is slower than the kernel by an order of magnitude).  If `a`
+and `b` are not definitionally equal the kernel rejects the theorem. -/
+elab "kernel_rfl" : tactic => do
+  let g ← getMainGoal
+  let t ← instantiateMVars (← g.getType)
+  let some (α, lhs, _) := t.eq? | throwError "kernel_rfl: not an equality"
+  let u ← getLevel α
+  g.assign (mkApp2 (mkConst ``Eq.refl [u]) α lhs)
+
 namespace Tree
 variable {α β : Type}
 theorem denote_map {K : Type} [PyNum K] (ρ : Rho K) (g : α → β) :
